@@ -70,6 +70,21 @@ let dispatch (fn : Stdlib.String.t) (args : v list) : v =
       L [ of_n resp.r_status; of_body resp.r_body; of_bool resp.r_etag;
           of_opt (fun e -> of_n (err_status e)) resp.r_err; of_opt of_err resp.r_err;
           of_list of_effect effects ]
+  | "extract_encoding", [h; content; meta; prolog; det; known] ->
+      let known = to_list (to_pair to_str to_bool) known in
+      let lookup k = (try List.assoc k known with Not_found -> false) in
+      of_str (extract_encoding (fun _ -> to_opt to_str meta) (fun _ -> to_opt to_str prolog)
+                (fun _ -> to_opt to_str det) lookup (to_dict h) (to_str content))
+  | "decode_body", [h; content; meta; prolog; det; known; dec; rib] ->
+      let known = to_list (to_pair to_str to_bool) known in
+      let lookup k = (try List.assoc k known with Not_found -> false) in
+      let dec = to_list (to_pair to_str (to_opt to_str)) dec in
+      let decode enc _ = (try List.assoc enc dec with Not_found -> None) in
+      (match decode_body (fun _ -> to_opt to_str meta) (fun _ -> to_opt to_str prolog)
+               (fun _ -> to_opt to_str det) lookup decode (to_dict h) (to_str content) (to_bool rib) with
+       | None -> L [I 2]
+       | Some (Text t) -> L [I 0; of_str t]
+       | Some (Undecodable e) -> L [I 1; of_str e])
   | "cors_allow_origin", [conf; rh] ->
       of_opt of_str (cors_allow_origin (to_opt to_str conf) (to_dict rh))
   | "upstream_headers", [q; rh] -> of_dict (upstream_headers (to_dict q) (to_dict rh))
